@@ -68,6 +68,13 @@ def gen_specs(rng, n):
         else:
             spec["sigterm_at"] = round(rng.uniform(0.5, t + 100), 3)
         specs.append(spec)
+    # a second termination signal while the shutdown is in progress
+    for n2 in (1, 2, 3, 5, 8, 12):
+        specs.append({"commands": [[2.0, "/settings/mode", "eco"], [40.0, "/settings/mode", "standby"]], "max_s": 500.0, "sigterm_at": 300.0, "sigterm2_after_handlers": n2})
+    # faults in the first poll after a phase entry (posted without timer) and in later polls
+    for actor, mode in (("Tank", "eco"), ("Filtration", "eco"), ("Heating", "eco"), ("Tank", "standby")):
+        for nth in (1, 2, 3):
+            specs.append({"commands": [[2.0, "/settings/mode", "eco"]] + ([[40.0, "/settings/mode", mode]] if mode != "eco" else []), "max_s": 400.0, "crash_on": [actor, "do_repeat_", nth]})
     return specs
 
 
@@ -86,13 +93,15 @@ def mainrun_monitor(chk):
         what = None
         still = energised(r["levels"])
         crashed = r.get("crashed")
-        if spec.get("crash") and not crashed:
+        if (spec.get("crash") or spec.get("crash_on")) and not crashed:
             dist["crash_not_reached"] += 1
         if crashed:
             dist["crash"] += 1
         elif spec.get("sigterm_at") is not None:
             dist["sigterm"] += 1
-        if r.get("error"):
+        if r.get("killed_levels") is not None and energised(r["killed_levels"]):
+            what = f"a second termination signal during the shutdown killed the process (default action restored) with outputs energised: {energised(r['killed_levels'])}"
+        elif r.get("error"):
             what = f"the program ended with an unexpected exception {r['error']}"
         elif r.get("timeout") and (crashed or spec.get("sigterm_at") is not None):
             what = "the program did not end after the crash / signal"
@@ -226,6 +235,17 @@ def run(chk):
         m = None
     if m is not None:
         lean.check_theorems(chk, MODULE, THEOREMS)
+    # the signal handler must only clear the running flag (the model's signal step): anything else (restoring default
+    # dispositions, exiting) changes what a second signal does
+    import ast
+    try:
+        tree = ast.parse(open(os.path.join(REPO, "poupool.py")).read())
+        fn = [n for n in ast.walk(tree) if isinstance(n, ast.FunctionDef) and n.name == "sigterm_handler"][0]
+        body = [n for n in fn.body if not (isinstance(n, ast.Expr) and isinstance(n.value, ast.Constant))]
+        ok = len(body) == 2 and isinstance(body[0], ast.Global) and body[0].names == ["running"] and isinstance(body[1], ast.Assign) and ast.unparse(body[1]) == "running = False"
+        chk.obligation("T8: sigterm_handler only clears the running flag (shape of the model's signal step)", ok, "; ".join(ast.unparse(n) for n in body)[:300])
+    except Exception as e:  # noqa: BLE001
+        chk.obligation("T8: sigterm_handler only clears the running flag (shape of the model's signal step)", False, repr(e))
     swim_device_correspondence(chk)
     mainrun_monitor(chk)
     from checks import main_wiring as _mw
